@@ -21,6 +21,9 @@ CPAL = [np.array(['a', 'b', 'a', 'c', 'b', 'a']), np.array(['c', 'a', 'b', 'b', 
 IMG = [np.array([[1., 1., 5.], [1., 5., 5.], [9., 1., 1.]]), np.array([[1., 5., 5.], [5., 5., 1.], [1., 1., 1.]])]
 
 
+IMAGE_KINDS = ('floodfill', 'floodfill_linked')
+
+
 def P0(kind):
     import copy
     return dict(x=0, y=0, c=0, n=6, img=0, link=True, s=copy.deepcopy(KINDS[kind]['s0']))
@@ -43,22 +46,31 @@ class World(object):
         self.csum = self.d.id['sum']
         # the second dataset / the image exist only for the kinds that use them (world building dominates cost)
         datasets = [self.d]
-        self.d2 = self.img = self.cu = self.cv = self.link = None
+        self.d2 = self.img = self.img2 = self.cu = self.cv = self.cv2 = self.link = None
         if kind == 'linked':
             self.d2 = Data(label='d2', u=np.array([2., 4., 6., 8., 10., 12.]))
             self.cu = self.d2.id['u']
             datasets.append(self.d2)
-        if kind == 'floodfill':
+        if kind in IMAGE_KINDS:
             self.img = Data(label='img', v=IMG[p['img']].copy())
             self.cv = self.img.id['v']
             datasets.append(self.img)
+        if kind == 'floodfill_linked':
+            # a second, pixel-aligned image: the flood fill of img is evaluated ON img2
+            self.img2 = Data(label='img2', v2=IMG[0].copy() * 2 + 1)
+            self.cv2 = self.img2.id['v2']
+            datasets.append(self.img2)
         self.dc = DataCollection(datasets)
         if kind == 'linked':
             factor = p.get('linkfn', 2)
             self.link = ComponentLink([self.cx], self.cu, using=lambda x: factor * x)
             if p['link']:
                 self.dc.add_link(self.link)
-        self.target = self.img if kind == 'floodfill' else self.d
+        if kind == 'floodfill_linked':
+            from glue.core.link_helpers import LinkSame
+            for a, b in zip(self.img.pixel_component_ids, self.img2.pixel_component_ids):
+                self.dc.add_link(LinkSame(a, b))
+        self.target = self.img2 if kind == 'floodfill_linked' else (self.img if kind == 'floodfill' else self.d)
         self.state = KINDS[kind]['make'](self, p['s'])
         self.seen_on_change = None
         if listen:
@@ -88,8 +100,8 @@ class World(object):
         from glue.core.exceptions import IncompatibleAttribute
         out = {}
         t = self.target
-        att = self.cv if self.kind == 'floodfill' else self.cx
-        view = (slice(0, 2), slice(1, 3)) if self.kind == 'floodfill' else (slice(1, 5),)
+        att = self.cv2 if self.kind == 'floodfill_linked' else (self.cv if self.kind == 'floodfill' else self.cx)
+        view = (slice(0, 2), slice(1, 3)) if self.kind in IMAGE_KINDS else (slice(1, 5),)
 
         def guard(name, fn):
             try:
@@ -106,7 +118,7 @@ class World(object):
             guard('subset_mask', lambda: sub.to_mask())
             guard('subset_mask_view', lambda: sub.to_mask(view))
         guard('mean', lambda: np.round(t.compute_statistic('mean', att, subset_state=self.state), 9))
-        if self.kind != 'floodfill':
+        if self.kind not in IMAGE_KINDS:
             # a SECOND statistic through the same selection object (the first one must not have damaged anything)
             guard('sum_y', lambda: np.round(t.compute_statistic('sum', self.cy, subset_state=self.state), 9))
         guard('hist', lambda: t.compute_histogram([att], range=[[0, 10]], bins=[5], subset_state=self.state))
@@ -124,7 +136,7 @@ def ev_mask(w):
 
 
 def ev_view(w):
-    view = (slice(0, 2), slice(1, 3)) if w.kind == 'floodfill' else (slice(1, 5),)
+    view = (slice(0, 2), slice(1, 3)) if w.kind in IMAGE_KINDS else (slice(1, 5),)
     _quiet(lambda: w.target.get_mask(w.state, view=view))
 
 
@@ -133,7 +145,7 @@ def ev_subset(w):
         sub = [s for s in w.target.subsets if s.group is w.group][0]
         _quiet(lambda: sub.to_mask())
     else:
-        att = w.cv if w.kind == 'floodfill' else w.cx
+        att = w.cv2 if w.kind == 'floodfill_linked' else (w.cv if w.kind == 'floodfill' else w.cx)
         _quiet(lambda: w.target.compute_statistic('mean', att, subset_state=w.state))
 
 
@@ -429,6 +441,10 @@ KINDS = {
     'category': dict(s0=dict(codes=[0]), make=mk_category, muts=[m_refresh(6), m_refresh(4), setter([], 'categories', [1, 2], 'codes')]),
     'element': dict(s0=dict(idx=[1, 3]), make=mk_element, muts=DATA + [setter([], 'indices', [0, 2, 4], 'idx')]),
     'mask': dict(s0=dict(mask=[True, False, True, False, False, True]), make=mk_mask, muts=DATA + [mask_set()]),
+    # the flood fill of one image, under a composite, evaluated on ANOTHER pixel-aligned image: that mask is keyed
+    # on the other dataset but depends on this one's values
+    'floodfill_linked': dict(s0=dict(start=(0, 0), thr=1.2), make=lambda w, s: ~mk_floodfill(w, s),
+                             muts=[m_upd_img(), setter(['state1'], 'threshold', 5.5, 'thr')]),
     'floodfill': dict(s0=dict(start=(0, 0), thr=1.2), make=mk_floodfill, muts=[m_upd_img(), setter([], 'threshold', 5.5, 'thr'),
                                                setter([], 'start_coords', (2, 0), 'start')]),
     'linked': dict(s0=dict(thr=5.0), make=mk_linked, muts=[m_upd_x(1), m_link(False), m_link(True), m_link_swap(), setter([], 'right', 7.0, 'thr')]),
@@ -490,7 +506,7 @@ class Scenario(object):
         bad = sorted(k for k in want if core.jdump(got.get(k)) != core.jdump(want[k]))
         # the two statistics are also compared with plain numpy on the twin's mask and the known values, since a
         # defect INSIDE compute_statistic would hit the live world and the twin alike
-        if self.kind != 'floodfill' and isinstance(want.get('mask'), list):
+        if self.kind not in IMAGE_KINDS and isinstance(want.get('mask'), list):
             m = np.array(want['mask'], dtype=bool)
             n = w.p['n']
             for name, vals in (('mean', XPAL[w.p['x']][:n]), ('sum_y', YPAL[w.p['y']][:n])):
